@@ -125,4 +125,63 @@ func scnIsoStress(o *Out, r *Rng, thorough bool) {
 	o.Run("isostress", "8 "+itoa(n)+" 0")
 	o.Run("isostress", "6 "+itoa(n)+" 1") // a single P: goroutines interleave at every blocking point
 	o.Run("isostress", "16 "+itoa(n/2)+" 2")
+	o.Run("hollimit", "1")
+	o.Run("hollimit", "3")
+}
+
+// hollimit: the server is at its connection limit; an extra peer connects and
+// stays silent (it is refused); the served client leaves; a new client must be
+// served at once - the silent refused peer delays nobody.  in: maxc  out: ok | ...
+func init() { executors["hollimit"] = runHolLimit }
+
+func runHolLimit(in []string) (out string) {
+	defer func() {
+		if r := recover(); r != nil {
+			out = "panic"
+		}
+	}()
+	maxc := atoi(in[0])
+	srv, err := modbus.NewServer(&modbus.ServerConfiguration{URL: "tcp://127.0.0.1:0", MaxClients: uint(maxc),
+		Timeout: 20 * time.Second, Logger: quiet}, stressHandler{})
+	if err != nil {
+		return "harness-error:" + err.Error()
+	}
+	if err := srv.Start(); err != nil {
+		return "harness-error:" + err.Error()
+	}
+	defer srv.Stop()
+	addr := srv.VerifListenAddr().String()
+	var served []net.Conn
+	for i := 0; i < maxc; i++ {
+		c, err := net.DialTimeout("tcp", addr, time.Second)
+		if err != nil {
+			return "dial"
+		}
+		defer c.Close()
+		if probe(c) != "resp" {
+			return "not-served:" + itoa(i)
+		}
+		served = append(served, c)
+	}
+	silent, err := net.DialTimeout("tcp", addr, time.Second)
+	if err != nil {
+		return "dial-silent"
+	}
+	defer silent.Close()
+	time.Sleep(50 * time.Millisecond)
+	served[0].Close()
+	waitCount(srv, maxc-1, 2*time.Second)
+	t0 := time.Now()
+	c, err := net.DialTimeout("tcp", addr, time.Second)
+	if err != nil {
+		return "dial-new"
+	}
+	defer c.Close()
+	if r := probe(c); r != "resp" {
+		return "new-client-" + r
+	}
+	if d := time.Since(t0); d > 500*time.Millisecond {
+		return fmt.Sprintf("slow:%dms", d.Milliseconds())
+	}
+	return "ok"
 }
